@@ -234,38 +234,73 @@ def _protocol(ctx, col):
         tmpl = _first(nodes, lambda n: isinstance(n.ast, ast.Assign) and isinstance(n.ast.value, ast.Attribute)
                       and n.ast.value.attr == "solver_state" and isinstance(n.ast.value.value, ast.Name)
                       and n.ast.value.value.id == solver_expr)
-        stepsel = _first(nodes, lambda n: isinstance(n.ast, ast.Assign) and len(n.ast.targets) == 1
-                         and isinstance(n.ast.targets[0], ast.Name) and n.ast.targets[0].id == "step")
-        nonecheck = _first(nodes, lambda n: n.kind == "test" and isinstance(n.ast.test, ast.Compare)
-                           and ast.unparse(n.ast.test) == "step is None")
         mrestore = _first(nodes, lambda n: has_call(n, lambda c: isinstance(c.func, ast.Attribute) and c.func.attr == "restore"
                                                     and isinstance(c.func.value, ast.Name)))
         apply_ = _first(nodes, lambda n: has_call(n, lambda c: isinstance(c.func, ast.Attribute)
                                                    and c.func.attr == "_restore_state_from_checkpoint"))
+        # the variable handed to manager.restore as the step, and every name that holds the `step` argument by plain copies
+        rcalls = [c for c in (_stmt_calls(mrestore) if mrestore is not None else []) if isinstance(c.func, ast.Attribute) and c.func.attr == "restore"]
+        stepvar = rcalls[0].args[0].id if rcalls and rcalls[0].args and isinstance(rcalls[0].args[0], ast.Name) else None
+        al = {"step"}
+        changed = True
+        while changed:
+            changed = False
+            for n in nodes:
+                a = n.ast
+                if isinstance(a, ast.Assign) and len(a.targets) == 1 and isinstance(a.targets[0], ast.Name) and isinstance(a.value, ast.Name) \
+                        and a.value.id in al and a.targets[0].id not in al:
+                    al.add(a.targets[0].id)
+                    changed = True
+        if stepvar is not None:
+            al.add(stepvar)
+
+        def is_latest(e):
+            if isinstance(e, ast.Call) and isinstance(e.func, ast.Attribute) and e.func.attr == "latest_step":
+                return True
+            if isinstance(e, ast.Name):  # a local bound once to <manager>.latest_step()
+                defs = [n.ast for n in nodes if isinstance(n.ast, ast.Assign) and len(n.ast.targets) == 1
+                        and isinstance(n.ast.targets[0], ast.Name) and n.ast.targets[0].id == e.id]
+                return len(defs) == 1 and is_latest(defs[0].value)
+            return False
+
+        def none_test(t):
+            """X for `X is None` / `not X` with X a step alias"""
+            if isinstance(t, ast.Compare) and len(t.ops) == 1 and isinstance(t.ops[0], ast.Is) and isinstance(t.left, ast.Name) \
+                    and isinstance(t.comparators[0], ast.Constant) and t.comparators[0].value is None and t.left.id in al:
+                return t.left.id
+            if isinstance(t, ast.UnaryOp) and isinstance(t.op, ast.Not) and isinstance(t.operand, ast.Name) and t.operand.id in al:
+                return t.operand.id
+            return None
+
+        stepsel, sel_form = None, None
+        for n in nodes:
+            a = n.ast
+            if isinstance(a, ast.Assign) and len(a.targets) == 1 and isinstance(a.targets[0], ast.Name) and a.targets[0].id in al:
+                v = a.value
+                if isinstance(v, ast.BoolOp) and isinstance(v.op, ast.Or) and len(v.values) == 2 and isinstance(v.values[0], ast.Name) \
+                        and v.values[0].id in al and is_latest(v.values[1]):
+                    stepsel, sel_form = n, "or"
+                    break
+            if n.kind == "test" and none_test(a.test) is not None and any(
+                    isinstance(b, ast.Assign) and len(b.targets) == 1 and isinstance(b.targets[0], ast.Name) and b.targets[0].id in al
+                    and is_latest(b.value) for b in a.body):
+                stepsel, sel_form = n, "if"
+                break
+        nonecheck = _first(nodes, lambda n: n.kind == "test" and none_test(n.ast.test) is not None
+                           and isinstance(n.ast.test, ast.Compare) and any(isinstance(b, ast.Raise) for b in n.ast.body))
         # (a) template from the constructed solver
         ok = tmpl is not None
         col.add("R10.3", construct, file, (tmpl.lineno if tmpl else fn.lineno), ok,
                 f"restore template is `{solver_expr}.solver_state` of the constructed solver" if ok else
                 f"no `template = {solver_expr}.solver_state`", text="template from constructed solver")
         # (b) step selection
-        ok = False
-        why = "no `step = step or <manager>.latest_step()`"
-        if stepsel is not None:
-            v = stepsel.ast.value
-            def is_latest(e):
-                if isinstance(e, ast.Call) and isinstance(e.func, ast.Attribute) and e.func.attr == "latest_step":
-                    return True
-                if isinstance(e, ast.Name):  # a local bound once to <manager>.latest_step()
-                    defs = [n.ast for n in nodes if isinstance(n.ast, ast.Assign) and len(n.ast.targets) == 1
-                            and isinstance(n.ast.targets[0], ast.Name) and n.ast.targets[0].id == e.id]
-                    return len(defs) == 1 and is_latest(defs[0].value)
-                return False
-
-            ok = (isinstance(v, ast.BoolOp) and isinstance(v.op, ast.Or) and len(v.values) == 2
-                  and isinstance(v.values[0], ast.Name) and v.values[0].id == "step" and is_latest(v.values[1]))
-            if not ok and isinstance(v, ast.IfExp):
-                ok = ast.unparse(v.test) in ("step is not None", "step is None") and "latest_step" in ast.unparse(v)
-            why = "explicit step if given, else the manager's latest step" if ok else f"step selected as `{ast.unparse(v)}`"
+        ok = stepsel is not None
+        why = "explicit step if given, else the manager's latest step" if ok else "no `step = step or <manager>.latest_step()`"
+        if not ok:
+            cand = [n.ast for n in nodes if isinstance(n.ast, ast.Assign) and len(n.ast.targets) == 1 and isinstance(n.ast.targets[0], ast.Name)
+                    and n.ast.targets[0].id in al and not isinstance(n.ast.value, ast.Name)]
+            if cand:
+                why = f"step selected as `{ast.unparse(cand[0].value)}`"
         col.add("R10.3", construct, file, (stepsel.lineno if stepsel else fn.lineno), ok, why, text="step selection")
         # (c) None => ValueError before manager.restore
         ok = False
@@ -285,7 +320,7 @@ def _protocol(ctx, col):
             recv_ok = isinstance(acall.func.value, ast.Name) and acall.func.value.id == solver_expr
             arg_ok = len(acall.args) == 1 and isinstance(acall.args[0], ast.Name) and acall.args[0].id == rname
             rcall = [c for c in _stmt_calls(mrestore) if isinstance(c.func, ast.Attribute) and c.func.attr == "restore"][0]
-            step_ok = bool(rcall.args) and isinstance(rcall.args[0], ast.Name) and rcall.args[0].id == "step"
+            step_ok = bool(rcall.args) and isinstance(rcall.args[0], ast.Name) and rcall.args[0].id in al
             tname = tmpl.ast.targets[0].id if tmpl is not None and isinstance(tmpl.ast.targets[0], ast.Name) else None
             tmpl_ok = tname is not None and any(
                 isinstance(x, ast.Name) and x.id == tname for k in rcall.keywords for x in ast.walk(k.value)
@@ -419,13 +454,8 @@ def _problem_config(ctx, col):
     why = "self.config.problem = problem.config when a problem instance is supplied" if ok else \
         "the problem's configuration is not recorded in self.config.problem"
     if ok:
-        parents = parents_of(fn)
-        chain = []
-        cur = hits[0]
-        while cur is not fn and cur is not None:
-            cur = parents.get(id(cur))
-            if isinstance(cur, ast.If):
-                chain.append(ast.unparse(cur.test))
+        from .common import guard_conditions
+        chain = [ast.unparse(c) for c in guard_conditions(fn, hits[0])]
         ok = "problem is not None" in chain
         if not ok:
             why = f"recording of problem.config is not under `problem is not None` (guards: {chain})"
